@@ -708,10 +708,9 @@ func traverseAST(node *sitter.Node, sourceCode []byte, graph *CodeGraph, current
 			case "throws":
 				// namedChild
 				for j := 0; j < int(childNode.NamedChildCount()); j++ {
+					// every thrown type, also qualified ones (java.io.IOException is a scoped_type_identifier)
 					namedChild := childNode.NamedChild(j)
-					if namedChild.Type() == "type_identifier" {
-						throws = append(throws, namedChild.Content(sourceCode))
-					}
+					throws = append(throws, namedChild.Content(sourceCode))
 				}
 			case "modifiers":
 				modifiers = childNode.Content(sourceCode)
